@@ -1,17 +1,28 @@
 ------------------------------- MODULE MC_Beanquery -------------------------------
 EXTENDS Beanquery
-MSch == [k |-> "int", s |-> "str", v |-> "int"]
 R(k, s, v) == [k |-> k, s |-> s, v |-> v]
-MTable == << R(IntV(1), StrV("a"), IntV(2)), R(IntV(2), Null, IntV(1)), R(IntV(1), StrV("b"), Null) >>
+\* three versions of a table: the same columns with other rows; fewer columns in another declaration order
+TV1 == [sch |-> [k |-> "int", s |-> "str", v |-> "int"], cols |-> <<"k", "s", "v">>,
+        rows |-> << R(IntV(1), StrV("a"), IntV(2)), R(IntV(2), Null, IntV(1)), R(IntV(1), StrV("b"), Null) >>]
+TV2 == [sch |-> [k |-> "int", s |-> "str", v |-> "int"], cols |-> <<"k", "s", "v">>,
+        rows |-> << R(IntV(3), StrV("c"), IntV(7)) >>]
+TV3 == [sch |-> [v |-> "int", k |-> "str"], cols |-> <<"v", "k">>,
+        rows |-> << [v |-> IntV(5), k |-> StrV("x")], [v |-> Null, k |-> StrV("y")] >>]
+MTables == {TV1, TV2, TV3}
+MNames == {"g", "h"}
 T(e, as) == [e |-> e, as |-> as]
-Q(tg, wh, gr, od, ds, lm) == [targets |-> tg, where |-> wh, group |-> gr, having |-> NoE, order |-> od, pivot |-> <<>>, distinct |-> ds, limit |-> lm]
+Q(tg, wh, gr, od, ds, lm) == [targets |-> tg, where |-> wh, group |-> gr, having |-> NoE, order |-> od, pivot |-> <<>>, distinct |-> ds, limit |-> lm,
+                              sub |-> NoE, star |-> FALSE]
 MQueries == {
     Q(<<T(Col("k"), ""), T(Col("s"), "")>>, NoE, <<>>, <<>>, FALSE, -1),
+    [Q(<<>>, NoE, <<>>, <<>>, FALSE, -1) EXCEPT !.star = TRUE],
     Q(<<T(Col("k"), ""), T(Bin("add", Col("v"), Const(IntV(1))), "w")>>, Un("isnotnull", Col("v")), <<>>, <<[r |-> RefIdx(2), desc |-> TRUE]>>, FALSE, -1),
     Q(<<T(Col("k"), ""), T(Agg("count", Star), "n")>>, NoE, <<RefIdx(1)>>, <<>>, FALSE, -1),
     Q(<<T(Col("k"), "")>>, NoE, <<>>, <<>>, TRUE, 1),
     Q(<<T(Col("nope"), "")>>, NoE, <<>>, <<>>, FALSE, -1),
-    Q(<<T(Bin("add", Col("k"), Col("s")), "x")>>, NoE, <<>>, <<>>, FALSE, -1),
-    Q(<<T(Col("k"), "")>>, Bin("gt", Col("v"), Const(IntV(5))), <<>>, <<>>, FALSE, -1) }
+    Q(<<T(Bin("add", Col("k"), Col("v")), "x")>>, NoE, <<>>, <<>>, FALSE, -1) }
 Sizes == {1, 2}
+\* bound: behaviours of at most MaxLevel - 1 API calls
+CONSTANT MaxLevel
+Bounded == TLCGet("level") <= MaxLevel
 =============================================================================
